@@ -55,5 +55,5 @@ json.dump(out,open('/verif/coverage/summary.json','w'),indent=1)
 for r in rows: print("%-28s lines %5d/%5d (%5.1f%%)  functions %3d/%3d" % (r[0],r[1],r[2],100.0*r[1]/max(r[2],1),r[3],r[4]))
 print("TOTAL lines %.1f%%" % out["total_line_pct"])
 PY
-$BIN/llvm-cov report ./target-cov/release/jv -instr-profile=out/cov/all.profdata -show-functions /repo/src/*.rs /repo/src/jsonpath/*.rs 2>/dev/null | awk '$NF=="0.00%" || $(NF-3)=="0.00%"' | head -100 > /verif/coverage/uncovered.txt || true
+$BIN/llvm-cov report ./target-cov/release/jv -instr-profile=out/cov/all.profdata -show-functions /repo/src/*.rs /repo/src/jsonpath/*.rs 2>/dev/null | awk 'NF>=4 && ($NF=="0.00%" || $(NF-3)=="0.00%")' | head -100 > /verif/coverage/uncovered.txt || true
 rm -f out/cov/*.profraw
